@@ -82,7 +82,13 @@ StrongSep ==
 \* phrases around the ambiguous words (fr neuf with its articles, en o), used as parts of context cases (C10)
 AmbigParts ==
   [ fr |-> <<"le vingt neuf", "du cent neuf", "un logement neuf", "le numéro neuf", "un chat neuf", "le neuf", "du neuf", "un neuf deux",
-             "le vingt neuf alors voilà bien", "l'appartement neuf", "du pain neuf dix", "le mille neuf cent">>,
-    en |-> <<"o one", "the o", "o", "twenty o", "o apples", "one o two">>,
-    es |-> <<"uno dos">>, pt |-> <<"um dois">>, it |-> <<"uno due">>, de |-> <<"eins zwei">>, nl |-> <<"een twee">> ]
+             "le vingt neuf alors voilà bien", "l'appartement neuf", "du pain neuf dix", "le mille neuf cent",
+             "la première", "le premier", "vingt-et-unième", "vingt-et-unièmes", "neuf cents">>,
+    en |-> <<"o one", "the o", "o", "twenty o", "o apples", "one o two", "o eight hundred", "twenty-first", "twenty-firsts", "the fifth", "two fifths">>,
+    es |-> <<"uno dos", "vigésimo primero", "vigésima primera", "vigésimos primeros", "centésimo", "centésima", "un doceavo", "dos doceavos">>,
+    pt |-> <<"um dois", "vigésimo primeiro", "vigésima primeira", "vigésimos primeiros", "centésimo", "centésima">>,
+    it |-> <<"uno due", "il ventitreesimo giorno", "la ventitreesima volta", "centoventesimo", "centoventesima", "duecentesimi", "duecentesime",
+             "trentaduesimo", "trentaduesima">>,
+    de |-> <<"eins zwei", "einundzwanzigste", "einundzwanzigster", "einundzwanzigsten", "zweihundertste", "zweihundertster">>,
+    nl |-> <<"een twee", "eenentwintigste", "tweehonderdste", "drieënvijftigste">> ]
 =============================================================================
